@@ -427,29 +427,39 @@ def _set_allocations_for_consumer(req, schema):
             data.get('user_id'), data.get('consumer_generation'),
             data.get('consumer_type'), want_version))
 
-    if not allocation_data:
-        # The allocations are empty, which means wipe them out. Internal
-        # to the allocation object this is signalled by a used value of 0.
-        # We verified the consumer's generation in util.ensure_consumer()
-        # NOTE(jaypipes): This will only occur 1.28+. The JSONSchema will
-        # prevent an empty allocations object from being passed when there is
-        # no consumer generation, so this is safe to do.
-        allocations = alloc_obj.get_all_by_consumer_id(context, consumer_uuid)
-        for allocation in allocations:
-            allocation.used = 0
-            allocation_objects.append(allocation)
-    else:
-        # If the body includes an allocation for a resource provider
-        # that does not exist, raise a 400.
-        rp_objs = _resource_providers_by_uuid(context, allocation_data.keys())
+    try:
+        if not allocation_data:
+            # The allocations are empty, which means wipe them out. Internal
+            # to the allocation object this is signalled by a used value of
+            # 0. We verified the consumer's generation in
+            # util.ensure_consumer()
+            # NOTE(jaypipes): This will only occur 1.28+. The JSONSchema will
+            # prevent an empty allocations object from being passed when
+            # there is no consumer generation, so this is safe to do.
+            allocations = alloc_obj.get_all_by_consumer_id(
+                context, consumer_uuid)
+            for allocation in allocations:
+                allocation.used = 0
+                allocation_objects.append(allocation)
+        else:
+            # If the body includes an allocation for a resource provider
+            # that does not exist, raise a 400.
+            rp_objs = _resource_providers_by_uuid(
+                context, allocation_data.keys())
 
-        for resource_provider_uuid, allocation in allocation_data.items():
-            resource_provider = rp_objs[resource_provider_uuid]
-            new_allocations = _new_allocations(context,
-                                               resource_provider,
-                                               consumer,
-                                               allocation['resources'])
-            allocation_objects.extend(new_allocations)
+            for resource_provider_uuid, allocation in allocation_data.items():
+                resource_provider = rp_objs[resource_provider_uuid]
+                new_allocations = _new_allocations(context,
+                                                   resource_provider,
+                                                   consumer,
+                                                   allocation['resources'])
+                allocation_objects.extend(new_allocations)
+    except Exception:
+        # Do not leave an auto-created consumer behind when the request is
+        # rejected before the allocations are written.
+        with excutils.save_and_reraise_exception():
+            if created_new_consumer:
+                delete_consumers([consumer])
 
     @db_api.placement_context_manager.writer
     def _update_consumers_and_create_allocations(ctx):
@@ -489,6 +499,11 @@ def _set_allocations_for_consumer(req, schema):
             'Inventory and/or allocations changed while attempting to '
             'allocate: %(error)s' % {'error': exc},
             comment=errors.CONCURRENT_UPDATE)
+
+    if created_new_consumer and not allocation_data:
+        # Nothing was allocated to the consumer we have just created: a
+        # consumer exists only while it holds allocations.
+        delete_consumers([consumer])
 
     req.response.status = 204
     req.response.content_type = None
@@ -559,7 +574,13 @@ def set_allocations(req):
     # alloc_obj.replace_all() call, which will mean all the changes happen
     # within a single transaction and with resource provider and consumer
     # generations (if applicable) check all in one go.
-    allocations = create_allocation_list(context, data, consumers)
+    try:
+        allocations = create_allocation_list(context, data, consumers)
+    except Exception:
+        # Do not leave auto-created consumers behind when the request is
+        # rejected before the allocations are written.
+        with excutils.save_and_reraise_exception():
+            delete_consumers(new_consumers_created)
 
     @db_api.placement_context_manager.writer
     def _update_consumers_and_create_allocations(ctx):
@@ -597,6 +618,11 @@ def set_allocations(req):
             'Inventory and/or allocations changed while attempting to '
             'allocate: %(error)s' % {'error': exc},
             comment=errors.CONCURRENT_UPDATE)
+
+    # Consumers we have just created but for which nothing was allocated must
+    # not stay: a consumer exists only while it holds allocations.
+    delete_consumers([consumer for consumer in new_consumers_created
+                      if not data[consumer.uuid]['allocations']])
 
     req.response.status = 204
     req.response.content_type = None
